@@ -13,8 +13,8 @@ use vcore::{Rng, Stats, json};
 pub const BRICK: &str = "C13/accepted_on_write_rejected_on_read";
 
 /// Reports a violation signature at most once per process (further hits are counted). Used only
-/// for the dedicated candidate-defect scenarios, which fire on every case and would otherwise
-/// fill the bounded violation list and hide other signatures.
+/// for the two dedicated scenarios (known finding / regression of a fixed finding), which would
+/// fire on every case and fill the bounded violation list, hiding other signatures.
 pub fn violation_once(st: &mut Stats, sig: String, detail: serde_json::Value) {
     static SEEN: std::sync::Mutex<Option<BTreeSet<String>>> = std::sync::Mutex::new(None);
     let mut g = SEEN.lock().unwrap();
@@ -617,31 +617,33 @@ pub fn vector_in_untyped_value(rng: &mut Rng) -> (Ft, Fv, &'static str, bool) {
         // 1 + 3*(1+4094) + (1+4095) + 2 = 16384 nodes on read under a bare Array([])
         4 => (vec![big(4094), big(4094), big(4094), big(4095), Fv::U64(1), Fv::U64(2)], "nodes_exact_or_one_over"),
         5 => (vec![big(4094), big(4094), big(4094), big(4095), Fv::U64(1), Fv::U64(2), Fv::U64(3), Fv::U64(4)], "nodes_just_over"),
-        // the payload array is container 1 (2 under the wildcard wrapper): the bit patterns of the
-        // innermost vector sit at depth 61 + 2 (+1) = 63/64 resp. 63 + 2 (+1) = 65/66 on read
-        6 => (deep(61), "depth_within"),
+        // the bit patterns of the innermost vector sit 2 levels below the innermost array:
+        // depth 62..64 on read (depending on the wrapper) resp. 65..67
+        6 => (deep(60), "depth_within"),
         _ => (deep(63), "depth_over"),
     };
-    let fits = match variant {
-        "array_len_at_limit" | "nodes_within" | "depth_within" => Some(true),
-        "array_len_over" | "nodes_over" | "nodes_just_over" | "depth_over" => Some(false),
-        _ => None,
-    };
-    let (ft, v, wrapped) = match rng.below(4) {
-        0 => (Ft::Array(vec![]), Fv::Array(payload), false),
-        1 => (Ft::Option(Box::new(Ft::Array(vec![]))), Fv::Array(payload), false),
+    let (ft, v) = match rng.below(5) {
+        0 => (Ft::Array(vec![]), Fv::Array(payload)),
+        1 => (Ft::Option(Box::new(Ft::Array(vec![]))), Fv::Array(payload)),
         2 => (
             Ft::Map(BTreeMap::new()),
             Fv::Map(payload.into_iter().enumerate().map(|(i, v)| (FieldKey::I64(i as i64), v)).collect()),
-            false,
         ),
-        _ => (
+        3 => (
             Ft::Map(BTreeMap::from([(FieldKey::Text("*".into()), Ft::Array(vec![]))])),
             Fv::Map(BTreeMap::from([(FieldKey::Text("k".into()), Fv::Array(payload))])),
-            true,
+        ),
+        // untyped below untyped: the vectors are two generic containers away from the declared type
+        _ => (
+            Ft::Array(vec![Ft::Text, Ft::Array(vec![])]),
+            Fv::Array(vec![Fv::Text("t".into()), Fv::Array(vec![Fv::Map(BTreeMap::from([(FieldKey::I64(0), Fv::Array(payload))]))])]),
         ),
     };
-    (ft, v, variant, fits.unwrap_or(!wrapped))
+    // the documented budget applied to the schema-less (read-back) shape: every value a node, root
+    // at depth 0, 16384 nodes, depth 64, 4096 elements per container
+    let (nodes, depth, widest) = generic_measure(&generic_canon(&v));
+    let fits = nodes <= 16384 && depth <= 64 && widest <= 4096;
+    (ft, v, variant, fits)
 }
 
 pub fn vector_untyped_case(_case: u64, rng: &mut Rng, st: &mut Stats) {
@@ -650,11 +652,6 @@ pub fn vector_untyped_case(_case: u64, rng: &mut Rng, st: &mut Stats) {
         return st.inconclusive("harness: schema build failed");
     };
     let schema = Arc::new(schema);
-    // the harness's own reading of the budget on the read-back shape (cross-check of `fits`)
-    let (nodes, depth, widest) = generic_measure(&generic_canon(&v));
-    if fits != (nodes <= 16384 && depth <= 64 && widest <= 4096) {
-        return st.inconclusive(format!("harness: vector_untyped variant {variant} mislabelled: nodes {nodes} depth {depth} widest {widest}"));
-    }
     let accepted = write_set_field(&schema, &v).is_ok();
     st.count(&format!(
         "vector_untyped:{}:{}",
@@ -983,7 +980,9 @@ fn persist_roundtrip(schema: &Schema, rng: &mut Rng) -> Result<Schema, String> {
 }
 
 /// `with_retype`: also generate "nested key removed, later declared again with ANOTHER type"
-/// (kept in its own section: `upgrade_with` permits it, yet it makes old documents unreadable).
+/// (kept in its own section: `upgrade_with` permits every step of it, yet documents that still carry
+/// the old entry become unreadable - known finding, signature
+/// `C13/upgrade/old_document_unreadable/after_nested_key_readded_with_other_type`).
 pub fn upgrade_case(_case: u64, rng: &mut Rng, st: &mut Stats, with_retype: bool) {
     let mut next_lineage = 1u64;
     let mut lin = || {
